@@ -8,7 +8,9 @@
    Mechanisms modelled as in the code: buyGas / refundGas / chargeForGas (tx_processor.go), CallVoteTx +
    ChangeVotesByBalance at Finalize (candidate_vote_tx.go, tx_processor.go:644, assembler.go Finalize),
    register / top-up / unregister with the deposit pool, Issue / Replenish / TransferAsset / ModifyAsset(freeze),
-   box transactions (box_tx.go), contracts that accept, revert, burn or hand back value.
+   box transactions (box_tx.go), contracts that accept, revert, burn or hand back value; the term boundary:
+   deferred deposit refunds (interim period / deputies of the signing term), the reward precompile, and the
+   end-of-block steps of a reward block (term reward issue, refunds, then the vote-by-balance pass).
 
    Devs switches on the three known defects of the implementation (all OFF: the properties hold; each ON: TLC
    finds the violation - the negative controls of the checks):
@@ -27,6 +29,8 @@ CONSTANTS Ctx,        \* context record (see LedgerOps)
           Voters, Cands, RegAmt,       \* votes and candidate transactions
           AFrom, ATo, AAmt, IAmt,      \* asset transactions
           BoxFrom, BoxTo,              \* box transactions: box sender, sub transaction sender / recipient
+          RewFrom, RewTerms, RewAmt,   \* reward settings: senders, terms, values (LEMO)
+          EmptyOK,                     \* blocks without transactions are generated too (needed to walk to a reward block)
           MaxTx, MaxBlk, MaxTot        \* transactions per block, blocks, transactions per behaviour
 VARIABLES st,    \* ledger state at the last block boundary
           blk,   \* block under construction (LedgerOps accumulator)
@@ -35,8 +39,8 @@ VARIABLES st,    \* ledger state at the last block boundary
 vars == <<st, blk, ntx, nb, ntot, last>>
 View == <<st, blk, ntx, nb, ntot>>
 LEMO == 1000
-NoTx == [k |-> "none", f |-> "", t |-> "", p |-> "", amt |-> 0, gl |-> 0, gp |-> 0, gu |-> 0, inc |-> FALSE, subs |-> <<>>]
-Tx(k, f, t, p, amt, gl, gp) == [k |-> k, f |-> f, t |-> t, p |-> p, amt |-> amt, gl |-> gl, gp |-> gp, gu |-> 0, inc |-> FALSE, subs |-> <<>>]
+NoTx == [k |-> "none", f |-> "", t |-> "", p |-> "", amt |-> 0, gl |-> 0, gp |-> 0, gu |-> 0, inc |-> FALSE, subs |-> <<>>, x |-> 0]
+Tx(k, f, t, p, amt, gl, gp) == [k |-> k, f |-> f, t |-> t, p |-> p, amt |-> amt, gl |-> gl, gp |-> gp, gu |-> 0, inc |-> FALSE, subs |-> <<>>, x |-> 0]
 
 (* ------------------------------------------------------------- what the processor packages *)
 AfterGas(b, t, a) == IF a = t.p THEN b.s.bal[a] - t.gl * t.gp ELSE b.s.bal[a]
@@ -48,6 +52,7 @@ PlainValid(b, t) ==
                                       /\ \/ b.s.reg[t.f] = "yes"
                                          \/ b.s.reg[t.f] = "no" /\ t.amt >= Ctx.mindep
        [] t.k = "unreg" -> b.s.reg[t.f] = "yes"
+       [] t.k = "setrew" -> TRUE                      \* a refused precompile call is still packaged (and costs its gas)
        [] t.k \in {"issue", "repl"} -> t.f = Ctx.issuer /\ t.amt > 0 /\ ~b.s.frz
        [] t.k = "axfer" -> /\ ~b.s.frz /\ b.s.eq[t.f] > 0 /\ t.amt <= b.s.eq[t.f]
                            /\ (t.amt >= 0 \/ "Dev_NegativeAssetTransfer" \in Devs)
@@ -64,8 +69,9 @@ Resolve(b, t) ==   \* fill in inc / gu as the processor would
        ELSE t
   ELSE IF PlainValid(b, t) THEN Exec(t) ELSE t
 
+\* Snapshot blocks are never scenario blocks (the election is C10 / C13's subject; the setup chain carries an empty one).
 Do(t0) == LET t == Resolve(blk, t0) IN
-          /\ nb < MaxBlk /\ ntx < MaxTx /\ ntot < MaxTot /\ t0.k \in Kinds
+          /\ nb < MaxBlk /\ ntx < MaxTx /\ ntot < MaxTot /\ t0.k \in Kinds /\ ~IsSnapshot(st, blk.h)
           /\ blk' = ApplyTx(Ctx, Devs, blk, t) /\ ntx' = ntx + 1 /\ ntot' = ntot + 1 /\ last' = t /\ UNCHANGED <<st, nb>>
 
 GL(g, ok) == IF g = "low" THEN 20000 ELSE IF g = "high" THEN 60000 ELSE ok
@@ -79,10 +85,11 @@ Issue(f, t, a)      == "issue" \in Kinds /\ f \in {Ctx.issuer, "a1"} /\ Do(Tx("i
 Replenish(f, t, a)  == "repl" \in Kinds /\ f \in {Ctx.issuer, "a1"} /\ Do(Tx("repl", f, t, f, a, 100000, 1))
 AssetTransfer(f, t, a) == "axfer" \in Kinds /\ Do(Tx("axfer", f, t, f, a, 60000, 1))
 Freeze(f, v)        == "freeze" \in Kinds /\ Do(Tx(IF v THEN "freeze" ELSE "unfreeze", f, "", f, 0, 100000, 1))
+SetReward(f, k, a)  == "setrew" \in Kinds /\ Do([Tx("setrew", f, Ctx.rc, f, a * LEMO, 60000, 1) EXCEPT !.x = k])
 Box(f, sf, stt, a, n, gp) ==
   "box" \in Kinds /\ Do([Tx("box", f, "", f, 0, 100000, gp) EXCEPT !.subs = [i \in 1..n |-> Tx("xfer", sf, stt, sf, a * LEMO, 30000, 1)]])
-EndBlock == /\ nb < MaxBlk /\ ntx > 0
-            /\ st' = Finalize(Ctx, blk).s /\ blk' = Begin(st') /\ ntx' = 0 /\ nb' = nb + 1 /\ last' = NoTx /\ UNCHANGED ntot
+EndBlock == /\ nb < MaxBlk /\ (ntx > 0 \/ EmptyOK) /\ ~IsSnapshot(st, blk.h)
+            /\ st' = Finalize(Ctx, Devs, blk).s /\ blk' = Begin(st') /\ ntx' = 0 /\ nb' = nb + 1 /\ last' = NoTx /\ UNCHANGED ntot
 
 Init == st = Init0 /\ blk = Begin(Init0) /\ ntx = 0 /\ nb = 0 /\ ntot = 0 /\ last = NoTx
 Next == \/ \E f \in From, t \in XTo, a \in XAmt, p \in Payers \cup From, g \in {"ok", "low"} : Transfer(f, t, a, p, g)
@@ -94,6 +101,7 @@ Next == \/ \E f \in From, t \in XTo, a \in XAmt, p \in Payers \cup From, g \in {
         \/ \E f \in AFrom, t \in ATo, a \in IAmt : Replenish(f, t, a)
         \/ \E f \in AFrom, t \in ATo, a \in AAmt : AssetTransfer(f, t, a)
         \/ \E f \in AFrom, v \in BOOLEAN : Freeze(f, v)
+        \/ \E f \in RewFrom, k \in RewTerms, a \in RewAmt : SetReward(f, k, a)
         \/ \E f \in BoxFrom, sf \in BoxTo, t \in BoxTo, a \in XAmt, n \in 1..2, gp \in {2} : Box(f, sf, t, a, n, gp)
         \/ EndBlock
 Spec == Init /\ [][Next]_vars
@@ -102,6 +110,18 @@ Spec == Init /\ [][Next]_vars
 NonNegative  == NonNegBal(blk.s)
 \* fees are held aside until Finalize; nothing else leaves or enters except legitimate issuance / burns
 Conservation == Total(blk.s.bal) + blk.fees = Total(blk.start) + blk.rew - blk.burn
+\* the deposit pool holds the recorded deposits at every moment: it is credited by deposits and debited by refunds only
+\* (no configuration transfers to the pool directly)
+DepositsBacked == PoolSurplus(Ctx, blk.s) = PoolSurplus(Ctx, Init0)
+\* the end of a block issues LEMO only in a reward block, and then the reward in force for the finished term up to the
+\* rounding loss (less than one precision unit + 1 per paid node)
+EndOfBlockIssuesTheReward ==
+  [][nb' = nb + 1 =>
+       LET d  == Total(st'.bal) - Total(st.bal) + blk.burn
+           k  == SignerTerm(st, st'.h - 1) + 1
+           r  == IF IsReward(st, st'.h) /\ k <= Len(blk.s.rwd) THEN blk.s.rwd[k] ELSE 0
+           np == IF k <= Len(Ctx.payees) THEN Len(Ctx.payees[k]) ELSE 0
+       IN IF r = 0 \/ np = 0 THEN d = 0 ELSE d <= r /\ r - d < np * (Ctx.prec + 1)]_vars
 GasWithinLimit == [][last'.inc => last'.gu <= last'.gl]_vars
 NotIncludedIsFree == [][(ntx' = ntx + 1 /\ ~last'.inc) => blk' = blk]_vars
 (* ------------------------------------------------------------- C11 *)
